@@ -228,6 +228,8 @@ func main() {
 		r.maybeFlush()
 	}
 	lap("extraction")
+	equalAll(r)
+	lap("equality")
 	intcomAll(r, c)
 	lap("intcom")
 	elgamalAll(r, c)
@@ -282,6 +284,8 @@ func replay(r *runner) {
 			elgamalReplay(r, c, f[0], idx)
 		case strings.HasPrefix(f[0], "intcom-"), strings.HasPrefix(f[0], "inteq-"), strings.HasPrefix(f[0], "intbound-"):
 			intcomReplay(r, c, f[0], idx)
+		case strings.HasPrefix(f[0], "equal-"):
+			equalReplay(r, f[0], idx)
 		case f[0] == "extract":
 			extractCase(r, idx)
 		default:
